@@ -372,6 +372,93 @@ fn entry_point_case(index: u64, st: &mut Stats) {
     st.count("entry_point_programs_order_independent");
 }
 
+// ---- import order: the import statements of a file are top-level items like any other; whatever they bind,
+// permuting them must not change acceptance or behaviour (a clash is a clash in every order).
+// (name, import lines, rest of main.sy)
+const IMPORT_ORDERS: &[(&str, &[&str], &str)] = &[
+    ("one constant name from two modules", &["from ia use x", "from ib use x"], "start :: fn do\n    print(x)\nend\n"),
+    ("one function name from two modules", &["from ia use f", "from ib use f"], "start :: fn do\n    print(f())\nend\n"),
+    ("one type name from two modules", &["from ia use T", "from ib use T"], "start :: fn do\n    t :: T { v: 1 }\n    print(1)\nend\n"),
+    ("an alias equal to a name imported from another module", &["from ia use x", "from ib use (y as x)"], "start :: fn do\n    print(x)\nend\n"),
+    ("one name from three modules", &["from ia use x", "from ib use x", "from ic use x"], "start :: fn do\n    print(x)\nend\n"),
+    ("a from-imported name equal to a namespace", &["use ia", "from ib use (x as ia)"], "start :: fn do\n    print(ia)\nend\n"),
+    ("one alias for two namespaces", &["use ia as m", "use ib as m"], "start :: fn do\n    print(m.x)\nend\n"),
+    ("the same name imported twice from one module", &["from ia use x", "from ia use x"], "start :: fn do\n    print(x)\nend\n"),
+    ("the same name imported from one module, plainly and in a list", &["from ia use x", "from ia use (x, y)"], "start :: fn do\n    print(x)\n    print(y)\nend\n"),
+    ("different names from three modules (valid)", &["from ia use x", "from ib use y", "use ic"], "start :: fn do\n    print(x)\n    print(y)\n    print(ic.x)\nend\n"),
+    ("aliases keeping two equal names apart (valid)", &["from ia use (x as xa)", "from ib use (x as xb)", "from ic use x"], "start :: fn do\n    print(xa)\n    print(xb)\n    print(x)\nend\n"),
+    ("a from-imported name equal to an own definition", &["from ia use x", "from ib use y"], "x :: 5\n\nstart :: fn do\n    print(x)\n    print(y)\nend\n"),
+];
+
+fn import_order_case(index: u64, st: &mut Stats) {
+    let (name, imports, rest) = IMPORT_ORDERS[index as usize % IMPORT_ORDERS.len()];
+    let mut files = sy::Files::new();
+    files.insert("ia.sy".into(), "x :: 10\ny :: 11\n\nf :: fn -> int do\n    1\nend\n\nT :: blob {\n    v: int,\n}\n".into());
+    files.insert("ib.sy".into(), "x :: 99\ny :: 98\n\nf :: fn -> int do\n    2\nend\n\nT :: blob {\n    v: int,\n    w: int,\n}\n".into());
+    files.insert("ic.sy".into(), "x :: 7\ny :: 8\n".into());
+    // all permutations of the import lines; the rest of the file before or after them
+    let n = imports.len();
+    let mut perms: Vec<Vec<usize>> = vec![vec![]];
+    for _ in 0..n {
+        let mut next = Vec::new();
+        for p in &perms {
+            for i in 0..n {
+                if !p.contains(&i) {
+                    let mut q = p.clone();
+                    q.push(i);
+                    next.push(q);
+                }
+            }
+        }
+        perms = next;
+    }
+    st.count("import_order_programs");
+    let mut first: Option<(String, Behaviour)> = None;
+    for (pi, perm) in perms.iter().enumerate() {
+        for imports_first in [true, false] {
+            let lines = perm.iter().map(|i| imports[*i]).collect::<Vec<_>>().join("\n");
+            let main = if imports_first { format!("{}\n\n{}", lines, rest) } else { format!("{}\n{}\n", rest, lines) };
+            let mut f = files.clone();
+            f.insert("main.sy".into(), main.clone());
+            st.count("import_orders_compiled");
+            let b = behaviour(&f, "main.sy");
+            // a rejection is compared as a rejection (the message may name either of the clashing lines)
+            let key = match &b {
+                Behaviour::Rejected(_) => Behaviour::Rejected(String::new()),
+                other => other.clone(),
+            };
+            if matches!(key, Behaviour::NoVerdict(_)) {
+                continue;
+            }
+            match &first {
+                None => first = Some((main, key)),
+                Some((m0, k0)) => {
+                    if *k0 != key {
+                        st.violation(Violation {
+                            signature: format!("order:imports:{}", name),
+                            hazard: None,
+                            case: index,
+                            detail: J::obj()
+                                .with("shape", J::s(name))
+                                .with("permutation", J::s(format!("{:?} (#{}), imports first: {}", perm, pi, imports_first)))
+                                .with("main.sy (first order)", J::s(m0.clone()))
+                                .with("behaviour (first order)", J::s(format!("{:?}", k0).chars().take(400).collect::<String>()))
+                                .with("main.sy (this order)", J::s(main))
+                                .with("behaviour (this order)", J::s(format!("{:?}", b).chars().take(400).collect::<String>())),
+                        });
+                        return;
+                    }
+                }
+            }
+        }
+    }
+    match first {
+        Some((_, Behaviour::Rejected(_))) => st.count("import_order_programs_rejected_in_every_order"),
+        Some(_) => st.count("import_order_programs_same_behaviour_in_every_order"),
+        None => {}
+    }
+}
+
 impl Check for C11 {
     fn id(&self) -> &'static str {
         "C11"
@@ -388,6 +475,9 @@ impl Check for C11 {
         }
         if (index as usize) < ENTRY_SHAPES.len() {
             entry_point_case(index, st);
+        }
+        if (index as usize) < IMPORT_ORDERS.len() {
+            import_order_case(index, st);
         }
         let mut rng = Rng::for_case(ctx.seed, "C11", index);
         let p = augmented(&mut rng, 2);
@@ -773,6 +863,9 @@ impl Check for C12 {
         if index == 0 {
             fixed_scenarios(st);
         }
+        if (index as usize) < namespace_chain_paths().len() {
+            namespace_chain_case(index, st);
+        }
         let mut rng = Rng::for_case(ctx.seed, "C12", index);
         let p = augmented_for_modules(&mut rng);
         let single = crate::print::canonical(&p);
@@ -925,6 +1018,96 @@ fn augmented_for_modules(rng: &mut Rng) -> Program {
 /// Hand-written project exercising the documented import forms that the random layouts do not
 /// produce: folder `exports.sy`, chained namespaces, cyclic imports, alias + plain import of one
 /// module, assignment to another file's mutable global. Expected trace worked out by hand.
+// ---- namespace chains: a qualified name `n0.n1.n2.T` / `n0.n1.n2.val` walks the `use`s of each file in turn.
+// Four modules, each with its own `T` (a blob whose field has a type of its own) and `val`; the edges are
+// n0 -> n1, n2;  n1 -> n2;  n2 -> n3;  n3 -> n0 (a cycle). Every path of 1..=5 components from main's `use n0`
+// is used as a type (parameter, result, local annotation, blob field, constructor) and as a value.
+const CHAIN_EDGES: [&[usize]; 4] = [&[1, 2], &[2], &[3], &[0]];
+const CHAIN_TY: [(&str, &str, &str); 4] = [("int", "41", "41"), ("str", "\"hi\"", "hi"), ("bool", "true", "true"), ("float", "1.5", "1.5")];
+
+fn namespace_chain_paths() -> Vec<Vec<usize>> {
+    let mut out = Vec::new();
+    let mut frontier: Vec<Vec<usize>> = vec![vec![0]];
+    for _ in 0..5 {
+        let mut next = Vec::new();
+        for p in &frontier {
+            out.push(p.clone());
+            for e in CHAIN_EDGES[*p.last().unwrap()] {
+                let mut q = p.clone();
+                q.push(*e);
+                next.push(q);
+            }
+        }
+        frontier = next;
+    }
+    out
+}
+
+fn namespace_chain_case(index: u64, st: &mut Stats) {
+    let paths = namespace_chain_paths();
+    let path = &paths[index as usize % paths.len()];
+    let target = *path.last().unwrap();
+    let dotted = |p: &[usize]| p.iter().map(|i| format!("n{}", i)).collect::<Vec<_>>().join(".");
+    let mut files = Files::new();
+    for i in 0..4 {
+        let uses: String = CHAIN_EDGES[i].iter().map(|e| format!("use n{}\n", e)).collect();
+        files.insert(format!("n{}.sy", i), format!("{}\nT :: blob {{\n    x: {},\n}}\n\nval :: {}\n", uses, CHAIN_TY[i].0, CHAIN_TY[i].1));
+    }
+    // another path to the same module, if there is one (constructor and annotation may spell the module differently)
+    let other_same = paths.iter().find(|q| *q.last().unwrap() == target && *q != path).cloned().unwrap_or(path.clone());
+    // a path to a different module (the wrong type)
+    let other_diff = paths.iter().find(|q| *q.last().unwrap() != target && q.len() == path.len()).or(paths.iter().find(|q| *q.last().unwrap() != target)).cloned().unwrap();
+    let (ty, lit, shown) = CHAIN_TY[target];
+    let (_, lit_d, _) = CHAIN_TY[*other_diff.last().unwrap()];
+    let p = dotted(path);
+    let good = format!(
+        "use n0\n\nHolder :: blob {{\n    h: {p}.T,\n}}\n\nget :: fn t: {p}.T -> {ty} do\n    ret t.x\nend\n\nmk :: fn -> {p}.T do\n    ret {o}.T {{ x: {lit} }}\nend\n\nstart :: fn do\n    print(get({p}.T {{ x: {lit} }}))\n    a: {p}.T = mk()\n    print(a.x)\n    hh :: Holder {{ h: {o}.T {{ x: {lit} }} }}\n    print(get(hh.h))\n    print({p}.val)\n    v: {ty} = {p}.val\n    print(v)\nend\n",
+        p = p, o = dotted(&other_same), ty = ty, lit = lit
+    );
+    let expect: Vec<String> = (0..5).map(|_| shown.to_string()).collect();
+    st.count("namespace_chain_projects");
+    st.count(&format!("namespace_chain_length:{}", path.len()));
+    let mut f = files.clone();
+    f.insert("main.sy".into(), good.clone());
+    let b = behaviour(&f, "main.sy");
+    if !matches!(&b, Behaviour::Ran { prints, outcome, monitor: None } if *prints == expect && outcome == "ok") {
+        st.violation(Violation {
+            signature: format!("modules:namespace-chain:length-{}", path.len()),
+            hazard: None,
+            case: index,
+            detail: J::obj().with("path", J::s(p.clone())).with("denotes", J::s(format!("n{}.sy", target))).with("expected_prints", J::Arr(expect.iter().map(|e| J::s(e.clone())).collect())).with("behaviour", J::s(format!("{:?}", b).chars().take(600).collect::<String>())).with("files", J::Obj(f.iter().map(|(k, v)| (k.clone(), J::s(v.clone()))).collect())),
+        });
+        return;
+    }
+    st.count("namespace_chain_projects_as_expected");
+    // the same positions given a value of ANOTHER module's T / val: must be rejected
+    let d = dotted(&other_diff);
+    let bads = [
+        ("argument built with another module's T", format!("use n0\n\nget :: fn t: {p}.T -> {ty} do\n    ret t.x\nend\n\nstart :: fn do\n    print(get({d}.T {{ x: {lit_d} }}))\nend\n", p = p, d = d, ty = ty, lit_d = lit_d)),
+        ("annotated local given another module's T", format!("use n0\n\nstart :: fn do\n    a: {p}.T = {d}.T {{ x: {lit_d} }}\n    print(a.x)\nend\n", p = p, d = d, lit_d = lit_d)),
+        ("constructor given the field value of another module's T", format!("use n0\n\nstart :: fn do\n    a :: {p}.T {{ x: {lit_d} }}\n    print(a.x)\nend\n", p = p, lit_d = lit_d)),
+        ("value annotated with the type of another module's val", format!("use n0\n\nstart :: fn do\n    v: {ty} = {d}.val\n    print(v)\nend\n", ty = ty, d = d)),
+    ];
+    for (what, text) in bads.iter() {
+        let mut f = files.clone();
+        f.insert("main.sy".into(), text.clone());
+        st.count("namespace_chain_negative_variants_tried");
+        match behaviour(&f, "main.sy") {
+            Behaviour::Rejected(_) => st.count("namespace_chain_negative_variants_rejected"),
+            Behaviour::NoVerdict(_) => {}
+            other => {
+                st.violation(Violation {
+                    signature: format!("modules:namespace-chain-wrong-module-accepted:length-{}", path.len()),
+                    hazard: None,
+                    case: index,
+                    detail: J::obj().with("what", J::s(*what)).with("path", J::s(p.clone())).with("other_path", J::s(d.clone())).with("main.sy", J::s(text.clone())).with("behaviour", J::s(format!("{:?}", other).chars().take(400).collect::<String>())),
+                });
+                return;
+            }
+        }
+    }
+}
+
 fn fixed_scenarios(st: &mut Stats) {
     let mut files = Files::new();
     files.insert("main.sy".into(), "use pkg/\nuse a\nuse b\nuse a as aa\nfrom b use (bval, bump as bb)\nuse /pkg/sub/deep\n\nstart :: fn do\n    print(pkg.pval)\n    print(a.b.bval)\n    print(aa.aval)\n    print(bval)\n    bb()\n    print(b.counter)\n    b.counter = 10\n    bb()\n    print(a.b.counter)\n    print(deep.dval + pkg.pval)\n    print(a.from_a())\nend\n".into());
